@@ -322,6 +322,10 @@ impl Envelope {
                     return None;
                 }
                 Some(Ok(Some(signature_object.clone())))
+            } else if signature_object.is_obscured() {
+                // An elided, encrypted or compressed signature object cannot be
+                // checked; it must not prevent other signatures from being verified.
+                None
             } else {
                 Some(Err(anyhow::anyhow!("Unexpected signature object type.")))
             }
